@@ -77,9 +77,18 @@ func (p *pwPath) addrKey(a ssa.Value) string {
 	a = p.resolve(a)
 	switch x := a.(type) {
 	case *ssa.FieldAddr:
+		// a field of an element of a tracked array (a table of structs): keyed by the element, not by the
+		// instruction that computes its address
+		if ia, ok := p.resolve(x.X).(*ssa.IndexAddr); ok {
+			if bk := p.addrKey(ia); bk != "" {
+				return fmt.Sprintf("%s.%d", bk, x.Field)
+			}
+		}
 		return fmt.Sprintf("%s.%d", objKey(p.resolve(x.X)), x.Field)
 	case *ssa.Alloc:
 		return objKey(x)
+	case *ssa.Global:
+		return fmt.Sprintf("G%p", x)
 	case *ssa.IndexAddr:
 		// an element of a local array with a constant index (the backing array of a variadic call)
 		if c, ok := p.constOf(x.Index); ok && c.Kind() == constant.Int {
